@@ -749,3 +749,232 @@ Definition parallel_stats_plan (m : monoid) (inj : row -> mcar m) (render : mcar
    rows of its own stream *)
 Definition tp_split_sem (t : twopass) (streams : list batch) : batch :=
   flat_map (tp_sem t) streams.
+
+(* ====================================================================== *)
+(* Level C: chains of DataProcessors with Rewind                           *)
+(* ====================================================================== *)
+(* A two-pass DataProcessor ends its first pass with dp.Rewind(): every input stream is
+   rewound (CachedStream.Rewind -> the upstream DataProcessor.Rewind -> its streams and its
+   processor.Rewind(), down to the source) and the whole chain in front of it runs a second
+   time.  What the commands in front deliver in that second run depends on what THEIR
+   Rewind() and GetFinalResultIfExists() do with the state of the first run. *)
+
+(* ---------- the processors with their real Rewind ---------- *)
+(* streaming processors: Process as [proc_of], no final result, Rewind = [rw] *)
+Definition proc_rw (c : command) (rw : st c -> st c) : proc :=
+  mkProc (st c) (init c)
+    (fun s inp =>
+       match inp with
+       | Some b => let '(s', o, e) := step c s b in (s', Some o, e)
+       | None => (s, Some (finish c s), true)
+       end)
+    (fun _ => None)
+    rw.
+(* headcommand.go Rewind: p.numRecordsSent = 0 (and options.Done = false) *)
+Definition head_proc (n : N) : proc := proc_rw (head_cmd n) (fun _ => 0).
+Definition head_expr_proc (cond : row -> option bool) (o : head_opts) : proc :=
+  proc_rw (head_expr_cmd cond o) (fun _ => (0, false)).
+(* dedupcommand.go Rewind: p.combinationHashes = nil *)
+Definition dedup_proc (H : value -> N) (o : dedup_opts) : proc := proc_rw (dedup_cmd H o) (fun _ => []).
+(* streamstatscommand.go Rewind: currentIndex = 0, currentBucketKey = "", resetAccumulatedStreamStats *)
+Definition streamstats_proc (o : ss_opts) : proc :=
+  proc_rw (streamstats_cmd false o) (fun _ => (0%Z, None, [])).
+(* where eval fields rename rex regex makemv mvexpand ..: Rewind has nothing to do *)
+Definition rowwise_proc (f : row -> list row) : proc := proc_rw (rowwise_cmd f) (fun s => s).
+
+(* bottleneck processors that keep their final result (tail, sort, stats, top, rare):
+   Process(iqr) accumulates and returns nil, nil; the first Process(nil) seals the state
+   (tail reverses finalIqr in place, sort/stats set hasFinalResult), returns the result with
+   io.EOF; every later Process(nil) returns nil, io.EOF; GetFinalResultIfExists hands the result
+   out again once it exists (tail: p.finalIqr itself, stats/top/rare: extracted again).
+   Rewind = [rw]; in the code it does nothing for all five. *)
+Definition proc_cached_gen (c : command) (seal : st c -> st c) (out : st c -> option batch)
+  (rw : st c * bool -> st c * bool) : proc :=
+  mkProc (st c * bool) (init c, false)
+    (fun s inp =>
+       let '(a, eof) := s in
+       match inp with
+       | Some b => let '(a', _, _) := step c a b in ((a', eof), None, false)
+       | None => if eof then (s, None, true)
+                 else let a' := seal a in ((a', true), out a', true)
+       end)
+    (fun s => if snd s then Some (out (fst s)) else None)
+    rw.
+Definition proc_cached (c : command) (seal : st c -> st c) (out : st c -> option batch) : proc :=
+  proc_cached_gen c seal out (fun s => s).
+(* tailcommand.go: the state IS finalIqr; ReverseRecords in place; nil finalIqr -> nil, io.EOF *)
+Definition tail_proc_gen (n : N) (rw : option batch * bool -> option batch * bool) : proc :=
+  proc_cached_gen (tail_cmd n)
+    (fun fin => match fin with Some f => Some (rev f) | None => None end)
+    (fun fin => fin) rw.
+Definition tail_proc (n : N) : proc := tail_proc_gen n (fun s => s).
+(* stats / top / rare (and sort, whose order is not modelled): the result is extracted from the
+   accumulated state every time it is asked for *)
+Definition agg_proc (c : command) : proc := proc_cached c (fun a => a) (fun a => Some (finish c a)).
+
+(* ---------- streams ---------- *)
+(* A rewindable stream (Streamer behind a CachedStream).  [strace s] = the whole pass from the
+   pass-start state s: the Fetch results without io.EOF in order, each with the state after it,
+   then the Fetch that returns io.EOF (with a last IQR or with nil) and the state after it.
+   After that Fetch the CachedStream is exhausted and the stream is not asked again before a
+   Rewind.  None = some Fetch would never return.  A consumer that stops early (head) has used
+   a prefix of the pass; the state it rewinds is the one recorded with the last event it saw. *)
+Record stream := mkStream {
+  sst : Type;
+  sinit : sst;
+  strace : sst -> option (list (batch * sst) * (option batch * sst));
+  srewind : sst -> sst }.
+
+(* the source: the batches [all]; eof_with = io.EOF comes together with the last batch *)
+Fixpoint src_events (eof_with : bool) (rest : list batch)
+  : list (batch * list batch) * (option batch * list batch) :=
+  match rest with
+  | [] => ([], (None, []))
+  | b :: r =>
+    match r with
+    | [] => if eof_with then ([], (Some b, [])) else ([(b, [])], (None, []))
+    | _ => let '(evs, fin) := src_events eof_with r in ((b, r) :: evs, fin)
+    end
+  end.
+Definition src_stream (eof_with : bool) (all : list batch) : stream :=
+  mkStream (list batch) all (fun rest => Some (src_events eof_with rest)) (fun _ => all).
+
+(* the state of a DataProcessor and everything in front of it *)
+Record dpst (p : proc) (U : Type) := mkDpst {
+  c_ps : pst p;          (* the processor *)
+  c_up : U;              (* the input stream *)
+  c_first : bool }.      (* finishedFirstPass *)
+Arguments mkDpst {p U}. Arguments c_ps {p U}. Arguments c_up {p U}. Arguments c_first {p U}.
+
+Inductive pass_res (p : proc) (U : Type) :=
+| RHang                                                             (* the loop of Fetch would spin *)
+| RDone (evs : list (batch * dpst p U)) (fin : option batch * dpst p U)   (* .. output, io.EOF *)
+| RPassEnd (evs : list (batch * dpst p U)) (ps : pst p) (u : U).        (* gotEOF of a first pass *)
+Arguments RHang {p U}. Arguments RDone {p U}. Arguments RPassEnd {p U}.
+
+Definition res_cons {p U} (e : batch * dpst p U) (r : pass_res p U) : pass_res p U :=
+  match r with
+  | RHang => RHang
+  | RDone evs fin => RDone (e :: evs) fin
+  | RPassEnd evs ps u => RPassEnd (e :: evs) ps u
+  end.
+
+Section DPStream.
+  Variable p : proc.
+  Variable fl : dpflags.
+  Variable up : stream.
+
+  (* `output != nil && (!isBottleneckCmd || (isTwoPassCmd && finishedFirstPass))` *)
+  Definition emits (first : bool) : bool := negb (is_bottleneck fl) || (is_twopass fl && first).
+  Definition got_eof (first : bool) (ps : pst p) (u : sst up) (out : option batch) : pass_res p (sst up) :=
+    if is_twopass fl && negb first then RPassEnd [] ps u
+    else RDone [] (out, mkDpst ps u first).
+  Definition emit (first : bool) (ps : pst p) (u : sst up) (out : option batch)
+    (k : pass_res p (sst up)) : pass_res p (sst up) :=
+    match out with
+    | Some o => if emits first then res_cons (o, mkDpst ps u first) k else k
+    | None => k
+    end.
+
+  (* the input stream is exhausted: the iterations of the Fetch loop get nil *)
+  Definition dp_drain (first : bool) (ps : pst p) (u : sst up) : pass_res p (sst up) :=
+    match pfinal p ps with
+    | Some out => got_eof first ps u out
+    | None =>
+      let '(ps', out, eof) := pprocess p ps None in
+      if eof then got_eof first ps' u out else RHang
+    end.
+
+  (* the iterations of the Fetch loop (over as many Fetch calls as the consumer makes) up to the
+     io.EOF of this pass, consuming the pass [tr, fin] of the input stream *)
+  Fixpoint dp_pass (first : bool) (ps : pst p) (u : sst up) (tr : list (batch * sst up))
+    (fin : option batch * sst up) : pass_res p (sst up) :=
+    match pfinal p ps with
+    | Some out => got_eof first ps u out
+    | None =>
+      match tr with
+      | (b, u') :: r =>
+        let '(ps', out, eof) := pprocess p ps (Some b) in
+        if eof then got_eof first ps' u' out
+        else emit first ps' u' out (dp_pass first ps' u' r fin)
+      | [] =>
+        match fst fin with
+        | None => dp_drain first ps (snd fin)
+        | Some b =>
+          let '(ps', out, eof) := pprocess p ps (Some b) in
+          if eof then got_eof first ps' (snd fin) out
+          else emit first ps' (snd fin) out (dp_drain first ps' (snd fin))
+        end
+      end
+    end.
+
+  (* a whole pass as the consumer of this DataProcessor sees it; a first pass that ends is
+     followed by dp.Rewind() (input stream and processor) and the second pass *)
+  Definition dp_trace (s : dpst p (sst up))
+    : option (list (batch * dpst p (sst up)) * (option batch * dpst p (sst up))) :=
+    match strace up (c_up s) with
+    | None => None
+    | Some (tr, fin) =>
+      match dp_pass (c_first s) (c_ps s) (c_up s) tr fin with
+      | RHang => None
+      | RDone evs f => Some (evs, f)
+      | RPassEnd evs ps u =>
+        let u2 := srewind up u in
+        match strace up u2 with
+        | None => None
+        | Some (tr2, fin2) =>
+          match dp_pass true (prewind p ps) u2 tr2 fin2 with
+          | RDone evs2 f => Some (evs ++ evs2, f)
+          | _ => None
+          end
+        end
+      end
+    end.
+
+  (* DataProcessor.Rewind(): the streams, then processor.Rewind(); finishedFirstPass stays *)
+  Definition dp_stream : stream :=
+    mkStream (dpst p (sst up)) (mkDpst (pinit p) (sinit up) false) dp_trace
+      (fun s => mkDpst (prewind p (c_ps s)) (srewind up (c_up s)) (c_first s)).
+End DPStream.
+
+(* what the consumer of the last DataProcessor collects until io.EOF *)
+Definition opt_rows (o : option batch) : batch := match o with Some b => b | None => [] end.
+Definition ev_rows {S : Type} (evs : list (batch * S)) (fin : option batch * S) : batch :=
+  concat (map fst evs) ++ opt_rows (fst fin).
+Definition stream_rows (s : stream) : option batch :=
+  match strace s (sinit s) with
+  | Some (evs, fin) => Some (ev_rows evs fin)
+  | None => None
+  end.
+Definition stream_batches (s : stream) : option (list batch) :=
+  match strace s (sinit s) with
+  | Some (evs, fin) => Some (map fst evs ++ match fst fin with Some b => [b] | None => [] end)
+  | None => None
+  end.
+
+(* a chain: DataProcessors connected in order behind the source *)
+Inductive rstage := RStage (p : proc) (fl : dpflags).
+Definition build_chain (src : stream) (stages : list rstage) : stream :=
+  fold_left (fun s rs => match rs with RStage p fl => dp_stream p fl s end) stages src.
+
+Definition streaming_flags : dpflags := {| is_bottleneck := false; is_twopass := false |}.
+Definition bottleneck_flags : dpflags := {| is_bottleneck := true; is_twopass := false |}.
+
+(* ---------- the IQR handed out twice ---------- *)
+(* tail hands out p.finalIqr ITSELF, and commands like eval / rename / streamstats write into the
+   IQR they are given.  With a row-wise command f between tail and a two-pass command the first
+   pass leaves f(rows) in tail's finalIqr, GetFinalResultIfExists hands that out in the second
+   pass and f is applied to it again: the two-pass command collects over f(rows) and transforms
+   f(f(rows)). *)
+Definition alias_two_pass (f : row -> row) (t : twopass) (cached : batch) : batch :=
+  let pass1 := map f cached in
+  map (tp_apply t (tp_summary t pass1)) (map f pass1).
+
+(* ---------- the result extracted twice ---------- *)
+(* statsProcessor without a BY clause (processMeasureOperations): every extraction of the result
+   - the first Process(nil), then GetFinalResultIfExists after a Rewind - merges the collected
+   segment statistics into the search results once more (CreateSegmentStatsResults ->
+   UpdateSegmentStats).  A two-pass command behind it collects over the aggregate of the input
+   and transforms the aggregate of the input taken twice. *)
+Definition stats_noby_two_pass (c : command) (t : twopass) (rows : batch) : batch :=
+  map (tp_apply t (tp_summary t (run c [rows]))) (run c [rows ++ rows]).
